@@ -27,6 +27,10 @@ type family struct {
 	// classify returns labels for the distribution report (operator names,
 	// outcome kinds...) and whether the case is non-trivial.
 	classify func(c *sx, observed string) (labels []string, nontrivial bool)
+	// rewrite (optional) lets a family whose case text carries data recorded
+	// from the run (a hook trace) replace the case text and the observable
+	// after the run: run returns a packed text, rewrite splits it.
+	rewrite func(c *sx, packed string) (caseText, observed string)
 }
 
 var families = map[string]*family{}
@@ -35,11 +39,12 @@ func register(f *family) { families[f.name] = f }
 
 // An oracle checks a property statement directly on the real code.
 type oracleFailure struct {
-	Property string      `json:"property"`
-	What     string      `json:"what"`
-	Family   string      `json:"family,omitempty"`
-	Case     string      `json:"case,omitempty"`
-	Detail   interface{} `json:"detail,omitempty"`
+	Property  string      `json:"property"`
+	Signature string      `json:"signature,omitempty"`
+	What      string      `json:"what"`
+	Family    string      `json:"family,omitempty"`
+	Case      string      `json:"case,omitempty"`
+	Detail    interface{} `json:"detail,omitempty"`
 }
 
 type oracleStats struct {
@@ -115,9 +120,18 @@ func main() {
 			fmt.Fprintln(os.Stderr, "bad case:", err)
 			os.Exit(2)
 		}
-		fmt.Println(runGuarded(f, c, 20*time.Second))
+		obs := runGuarded(f, c, 60*time.Second)
+		if f.rewrite != nil {
+			if t2, o2 := f.rewrite(c, obs); t2 != "" {
+				fmt.Println(t2)
+				obs = o2
+			}
+		}
+		fmt.Println(obs)
 	case "oracle":
 		cmdOracle(*prop, *seed, *n, *out)
+	case "oracle-replay":
+		os.Exit(cmdOracleReplay(*prop, *cs))
 	case "coqcases":
 		cmdCoqCases(*in, *k, *out)
 	case "families":
@@ -157,7 +171,15 @@ func cmdRun(f *family, seed uint64, n int, out, corpus string) {
 			fmt.Fprintln(os.Stderr, "generator produced bad case:", text)
 			os.Exit(2)
 		}
-		obs := runGuarded(f, c, 20*time.Second)
+		obs := runGuarded(f, c, 60*time.Second)
+		if f.rewrite != nil {
+			if t2, o2 := f.rewrite(c, obs); t2 != "" {
+				text, obs = t2, o2
+				if c2, err := parseSx(text); err == nil {
+					c = c2
+				}
+			}
+		}
 		fmt.Fprintf(w, "%s\t%s\n", text, obs)
 		st.Evaluations++
 		labels, nt := []string(nil), true
@@ -222,6 +244,30 @@ func cmdOracle(prop string, seed uint64, n int, out string) {
 	}
 	w.Flush()
 	writeJSON(out+".stats.json", stats)
+}
+
+// oracleReplayers re-execute the input of one recorded oracle failure.
+var oracleReplayers = map[string]func(f oracleFailure) (string, bool){}
+
+func cmdOracleReplay(prop, text string) int {
+	var f oracleFailure
+	if err := json.Unmarshal([]byte(text), &f); err != nil {
+		fmt.Println("bad failure record:", err)
+		return 2
+	}
+	rp := oracleReplayers[prop]
+	if rp == nil {
+		fmt.Println("no replayer for", prop, "- failure record:", text)
+		return 1
+	}
+	out, failed := rp(f)
+	fmt.Println(out)
+	if failed {
+		fmt.Println("REPRODUCED")
+		return 1
+	}
+	fmt.Println("NOT REPRODUCED")
+	return 0
 }
 
 func coqString(s string) string { return "\"" + strings.ReplaceAll(s, "\"", "\"\"") + "\"" }
